@@ -310,7 +310,8 @@ class PercentFormatString:
         """Return a mapping from mapping key to conversion specifiers for that mapping key."""
         out = defaultdict(list)
         for specifier in self.specifiers:
-            if specifier.conversion_type != "%":
+            # lint() reports specifiers without a mapping key
+            if specifier.conversion_type != "%" and specifier.mapping_key is not None:
                 out[specifier.mapping_key].append(specifier)
         return out
 
